@@ -857,6 +857,11 @@ class XsdElement(XsdComponent, ParticleMixin,
                 counter.enabled = False
                 if isinstance(identity, XsdKeyref):
                     assert isinstance(counter, KeyrefCounter)
+                    refer = counter.refer
+                    if refer is not None and refer not in context.identities:
+                        # The referred key is declared by an element that does not
+                        # occur in the instance: use an empty table for checking.
+                        context.identities[refer] = refer.get_counter(obj)
                     for error in counter.iter_errors(context.identities):
                         context.validation_error(validation, self, error, obj)
         elif context.level:
